@@ -517,11 +517,13 @@ func permuteMaps(n *univ.Node, r *rand.Rand) *univ.Node {
 func c14Datum(r *rand.Rand) (*univ.Node, []string) {
 	n := 2 + r.Intn(7)
 	keys := []string{"alpha", "beta", "gamma", "delta", "eps", "zeta", "eta", "theta", "omega"}
-	switch r.Intn(4) {
+	switch r.Intn(5) {
 	case 0: // long keys that share a long prefix
 		keys = []string{"service-web-1", "service-web-2", "service-web-10", "service-web-3", "service-web-a", "service-web-", "service-web-21", "service-web-b", "service-web"}
 	case 1: // keys that are prefixes of one another, non-ASCII
 		keys = []string{"a", "aa", "aaa", "aaaa", "ä", "a\x00", "A", "aaaaaaaaa", "aaaaaaaab"}
+	case 2: // digit strings of different lengths mixed with keys that merely start with a digit
+		keys = []string{"9", "10", "1a", "2", "100", "1b", "19", "x9", "0"}
 	}
 	r.Shuffle(len(keys), func(i, j int) { keys[i], keys[j] = keys[j], keys[i] })
 	keys = keys[:n]
@@ -656,10 +658,10 @@ func c14Run(c *mon.Ctx, idx int) {
 		switch mode {
 		case 0:
 			bind = "k"
-			vname = "m." + keys[0] // no value name in this mode: use a fixed element
+			vname = `m["` + keys[0] + `"]` // no value name in this mode: use a fixed element
 		case 1:
 			bind = "k, _"
-			vname = "m." + keys[r.Intn(len(keys))]
+			vname = `m["` + keys[r.Intn(len(keys))] + `"]`
 		case 2:
 			bind = "_, v"
 			kname = "name"
